@@ -164,6 +164,17 @@ def run(tape, scenario):
 
     async def inner(loop, ec):
         devices = [classes[w]() for w in which]
+        if tape.chance("c29/devices-used-before", 30):
+            # the same device objects were in another group before (with another device in
+            # front of them, without the first of them): another layout that must not stick
+            try:
+                other = [classes[0]()] + devices[1:][::-1]
+                ProcessSyncGroup(ec, other)
+                world.count("c29/devices-laid-out-in-an-earlier-group")
+            except Exception as e:
+                viol("group-cannot-be-created", f"earlier group: {type(e).__name__}: {e}",
+                     exception=type(e).__name__)
+                return
         try:
             sg = ProcessSyncGroup(ec, devices)
         except Exception as e:
